@@ -343,9 +343,6 @@ pub fn oracle(c: &Case, ctx: &mut Ctx) -> CaseResult {
 	};
 
 	for op in c.ops.iter() {
-		if ctx.replay {
-			eprintln!("op {:?}", op);
-		}
 		match op {
 			Op::Queue(n) => {
 				run.try_queue(*n as usize);
@@ -375,9 +372,6 @@ pub fn oracle(c: &Case, ctx: &mut Ctx) -> CaseResult {
 		run.events(false);
 		let out_after = (run.sock_a.st.lock().unwrap().out.len(), run.sock_b.st.lock().unwrap().out.len());
 		progress |= out_after != out_before;
-		if ctx.replay {
-			eprintln!("drain iteration: progress={} next={} out={:?}->{:?} taken={}/{}", progress, run.next, out_before, out_after, run.taken_ab, run.taken_ba);
-		}
 		if !progress {
 			break;
 		}
